@@ -28,7 +28,8 @@ Seeds == << Obj("circ", V("C1", <<>>)), Obj("circ", V("C2", <<>>)), Obj("circ", 
             Obj("pauli", V("T1", <<>>)), Obj("pauli", V("T2", <<>>)), Obj("pauli", V("S1", <<>>)), Obj("pauli", V("S2", <<>>)),
             Obj("meas", V("M1", <<>>)), Obj("dist", V("D1", <<>>)), Obj("dist", V("D2", <<>>)),
             Obj("wf", V("W1", <<>>)), Obj("wf", V("W2", <<>>)),
-            Obj("udist", V("D3", <<>>)) >>                  \* an UNnormalised histogram kept in a distribution object (normalize = False)
+            Obj("udist", V("D3", <<>>)),
+            Obj("pauli", V("T3", <<>>)) >>                  \* a term on ANOTHER string: T1 + T3 merges nothing (the sum may hold its operands)                  \* an UNnormalised histogram kept in a distribution object (normalize = False)
 \* name, argument kinds, result kind ("rep" = a report: nothing is added to the pool)
 Sig(n, a, r) == [n |-> n, a |-> a, r |-> r]
 OpSeq == <<
@@ -47,7 +48,10 @@ OpSeq == <<
   Sig("w_probs", <<"wf">>, "rep"), Sig("w_outcome", <<"wf">>, "rep"), Sig("w_bind", <<"wf">>, "wf"), Sig("w_sim", <<"circ", "wf">>, "wf"),
   Sig("w_save", <<"wf">>, "rep"),
   \* a normalised distribution built from the dictionary of another distribution object
-  Sig("d_copy", <<"udist">>, "dist"), Sig("d_copy_n", <<"dist">>, "dist") >>
+  Sig("d_copy", <<"udist">>, "dist"), Sig("d_copy_n", <<"dist">>, "dist"),
+  \* augmented assignment on operators (x += y, x *= 2): the value bound to x afterwards is the result; whatever Python does to the
+  \* receiver itself, no OTHER live object may change (the operands of the addition that produced the receiver, for instance)
+  Sig("p_iadd", <<"pauli", "pauli">>, "pauli"), Sig("p_imul", <<"pauli">>, "pauli") >>
 OpAll == 1..Len(OpSeq)
 Ops == {OpSeq[i] : i \in OpSel}
 
